@@ -193,7 +193,9 @@ partial def getNode (j : Json) : Except String L1.Node := do
       | .ok mj => do
         let ma ← mj.getArr?
         let mk ← (ma[0]!).getStr?
-        if mk == "c" then pure (some MContent.corrupt) else pure (some (MContent.text (← getStr ma[1]!)))
+        if mk == "c" then pure (some MContent.corrupt)
+        else if mk == "b" then pure (some (MContent.broken (← getStr ma[1]!)))
+        else pure (some (MContent.text (← getStr ma[1]!)))
       | .error _ => pure none
     pure (.file { dev := ← (← o.getObjVal? "dev").getNat?, stSize := ← (← o.getObjVal? "stsize").getNat?,
                   size := ← (← o.getObjVal? "size").getNat?, mtime := ← (← o.getObjVal? "mtime").getInt?,
@@ -209,6 +211,7 @@ def jErr : L1.Err → Json
   | .syntax => Json.mkObj [("err", "syntax")]
   | .unsigned => Json.mkObj [("err", "unsigned")]
   | .unsupportedHash => Json.mkObj [("err", "unsupportedhash")]
+  | .signing => Json.mkObj [("err", "gemato:OpenPGPSigningFailure")]
   | .os (.code 2) => Json.mkObj [("err", "os:Gemato.L1.Errno.ENOENT")]
   | .os (.code 20) => Json.mkObj [("err", "os:Gemato.L1.Errno.ENOTDIR")]
   | .os (.code 21) => Json.mkObj [("err", "os:Gemato.L1.Errno.EISDIR")]
@@ -357,7 +360,7 @@ def getFileMeta (o : Json) : Except String L1.FileMeta := do
          digests := dig, manifest := none }
 
 def jWrite : U.Write → Json
-  | .file p t => Json.arr #[Json.str "w", jStr p, jStr t]
+  | .file p t sg => Json.arr #[Json.str "w", jStr p, jStr t, Json.bool sg]
   | .unlink p => Json.arr #[Json.str "u", jStr p]
 
 /-- update: {world, top, path, create, xdev, hashes, profile, last_mtime, save:{force, sort, watermark, format}, post:[[path, meta]]} -/
@@ -374,7 +377,8 @@ def opUpdate (req : Json) : Except String Json := do
   let sv ← req.getObjVal? "save"
   let wm ← (match sv.getObjVal? "watermark" with | .ok Json.null => pure none | .ok j => (j.getNat?).map some | .error _ => pure none)
   let so : U.SaveOpts := { hashes := hashes, force := ← (← sv.getObjVal? "force").getBool?, sort := ← (← sv.getObjVal? "sort").getBool?,
-                           watermark := wm, format := ← getStr (← sv.getObjVal? "format"), profile := prof }
+                           watermark := wm, format := ← getStr (← sv.getObjVal? "format"), profile := prof,
+                           signedSize := ← (match sv.getObjVal? "signed_size" with | .ok Json.null => pure none | .ok j => (j.getNat?).map some | .error _ => pure none) }
   let postL ← (← (← req.getObjVal? "post").getArr?).toList.mapM fun kv => do
     let a ← kv.getArr?
     pure ((← getStr a[0]!), (← getFileMeta a[1]!))
@@ -388,7 +392,13 @@ def opUpdate (req : Json) : Except String Json := do
       let n (i : Nat) : Except String Nat := (f[i]!).getNat?
       pure (some (⟨← n 0, ← n 1, ← n 2, ← n 3, ← n 4, ← n 5⟩, ← (a[1]!).getBool?))
     | .error _ => pure none)
-  let r := Cli.updateCommand w post top path create prof xdev { hashes := hashes, profile := prof, lastMtime := lm } setTs so doSave
+  let sign : Cli.SignCfg ← (match req.getObjVal? "sign" with
+    | .ok Json.null => pure {}
+    | .ok j => do
+      let opt ← (match j.getObjVal? "opt" with | .ok Json.null => pure none | .ok b => (b.getBool?).map some | .error _ => pure none)
+      pure { opt := opt, topSigned := ← (← j.getObjVal? "top_signed").getBool?, keyUsable := ← (← j.getObjVal? "key_usable").getBool? }
+    | .error _ => pure {})
+  let r := Cli.updateCommand w post top path create prof xdev { hashes := hashes, profile := prof, lastMtime := lm } setTs so doSave sign
   pure (Json.mkObj [("model", match r with
     | .error e => jErr e
     | .ok (s, ws) => Json.mkObj [
